@@ -80,6 +80,9 @@ def run(ctx):
                 nproved += st['proved']
     ctx.require('C08 rounding cells', ncells, 9000)
     complete = (ncells == nproved and rc == rp)
+    ctx.cov['obligations'] = ncells + rc + wc
+    ctx.cov['discharged'] = nproved + rp + wp
+    ctx.cov['checker_cmd'] = './check C08 --tier ' + ctx.tier
     if not complete:
         ctx.notes.append('not every obligation was discharged in this run (%d/%d narrowing rounding cells, %d/%d widening routing cells): the verdict of this run is weaker than a proof'
                          % (nproved, ncells, rp, rc))
